@@ -46,6 +46,8 @@ type C05Case struct {
 	ExcludedEmpty int     `json:"excluded_empty,omitempty"`
 	// Force: storage_force_snapshot_interval (0 = off); used by the C10 loop check
 	Force int64 `json:"force_ns,omitempty"`
+	// Pad: header_extra_padding_block
+	Pad bool `json:"pad,omitempty"`
 }
 
 type c05Fleet struct {
@@ -198,7 +200,7 @@ func (f *c05Fleet) conf(i int) (config.Config, config.LMDB) {
 	conf.MemoryDownloadedSnapshots = 4
 	conf.Storage.Cleanup = config.Cleanup{Enabled: true, Interval: time.Hour, MustKeepInterval: time.Duration(f.c.MustKeep), RemoveOldInstancesInterval: time.Duration(f.c.RemoveOld)}
 	conf.StorageForceSnapshotInterval = time.Duration(f.c.Force)
-	return conf, config.LMDB{SchemaTracksChanges: f.c.Native}
+	return conf, config.LMDB{SchemaTracksChanges: f.c.Native, HeaderExtraPaddingBlock: f.c.Pad}
 }
 
 func newC05Fleet(c C05Case) (*c05Fleet, error) {
@@ -420,6 +422,9 @@ func genC05(t *rapid.T) C05Case {
 	c.N = rapid.IntRange(2, 3).Draw(t, "n")
 	c.MustKeep = rapid.SampledFrom([]int64{0, int64(time.Millisecond), int64(time.Hour)}).Draw(t, "must_keep")
 	c.RemoveOld = rapid.SampledFrom([]int64{int64(time.Second), int64(time.Hour), int64(7 * 24 * time.Hour)}).Draw(t, "remove_old")
+	c.Pad = rapid.IntRange(0, 3).Draw(t, "pad") == 0
+	// periodic forced snapshots: off, always overdue, or falling due in real time while the loop is stepped
+	c.Force = rapid.SampledFrom([]int64{0, 0, 0, 1, int64(20 * time.Millisecond)}).Draw(t, "force")
 	lc := LoopCase{Native: c.Native}
 	n := rapid.IntRange(4, 25).Draw(t, "nops")
 	for k := 0; k < n; k++ {
@@ -476,11 +481,15 @@ type enumC05 struct {
 	Point  string `json:"point"`
 	Keep   bool   `json:"keep"`
 	Own    string `json:"own"` // ok | fail2 | corrupt-newest
+	// Forced: storage_force_snapshot_interval of 1 ns (a periodic snapshot is always overdue)
+	Forced bool `json:"forced,omitempty"`
+	// NoApp: the application writes nothing after the restart
+	NoApp bool `json:"no_app,omitempty"`
 }
 
 func TestC05Enum(t *testing.T) {
 	vcore.RunEnum(t, vcore.Config{Property: "C05", Inflight: true,
-		Rule: "fault enumeration: instance A publishes key k (only copy), a peer B publishes k2; A is crashed at EVERY yield point (14) while it uploads a second change, restarted with the LMDB {kept, emptied}, with its own newest snapshot {downloadable, failing to load twice, followed by an undecodable newer blob, failing to load eight times while every other listing fails}; the application writes k' right after the restart; both loops run on; invariants as in TestC05Bucket after every bucket mutation; non-trivial = emptied restart"},
+		Rule: "fault enumeration: instance A publishes key k (only copy), a peer B publishes k2; A is crashed at EVERY yield point (14) while it uploads a second change, restarted with the LMDB {kept, emptied}, with its own newest snapshot {downloadable, failing to load twice, followed by an undecodable newer blob, failing to load eight times while every other listing fails}; the application writes k' right after the restart; for emptied restarts additionally with storage_force_snapshot_interval = 1 ns (a periodic snapshot always overdue) x {the application writes k', writes nothing}; both loops run on; invariants as in TestC05Bucket after every bucket mutation; non-trivial = emptied restart"},
 		func(yield func(enumC05) bool) {
 			for _, native := range []bool{true, false} {
 				for _, p := range loopYieldPoints {
@@ -489,6 +498,13 @@ func TestC05Enum(t *testing.T) {
 							if !yield(enumC05{Native: native, Point: p, Keep: keep, Own: own}) {
 								return
 							}
+							if !keep {
+								for _, noApp := range []bool{false, true} {
+									if !yield(enumC05{Native: native, Point: p, Keep: keep, Own: own, Forced: true, NoApp: noApp}) {
+										return
+									}
+								}
+							}
 						}
 					}
 				}
@@ -496,6 +512,9 @@ func TestC05Enum(t *testing.T) {
 		},
 		func(e enumC05, o *vcore.Obs) error {
 			c := C05Case{Native: e.Native, N: 2, MustKeep: 0, RemoveOld: int64(time.Hour)}
+			if e.Forced {
+				c.Force = 1
+			}
 			put := func(k int, v string) []SChange { return []SChange{{DBI: 0, Key: k, Op: "put", Val: model.Bytes(v)}} }
 			c.Ops = []C05Op{
 				{Kind: "app", Inst: 0, Changes: put(0, "k-only-on-A")},
@@ -522,9 +541,11 @@ func TestC05Enum(t *testing.T) {
 				}
 				c.Ops = append(c.Ops, C05Op{Kind: "fault", Inst: 0, FKind: "load", Faults: ldf}, C05Op{Kind: "fault", Inst: 0, FKind: "list", Faults: lf})
 			}
+			c.Ops = append(c.Ops, C05Op{Kind: "crash", Inst: 0, Keep: e.Keep})
+			if !e.NoApp {
+				c.Ops = append(c.Ops, C05Op{Kind: "app", Inst: 0, Changes: put(3, "written-after-restart")})
+			}
 			c.Ops = append(c.Ops,
-				C05Op{Kind: "crash", Inst: 0, Keep: e.Keep},
-				C05Op{Kind: "app", Inst: 0, Changes: put(3, "written-after-restart")},
 				C05Op{Kind: "step", Inst: 0, Steps: 80},
 				C05Op{Kind: "settle"},
 				C05Op{Kind: "step", Inst: 1, Steps: 40},
